@@ -72,7 +72,7 @@ def canon_of(st, fixture):
 def observe_for(st):
     """what to record about every worker at dispatch (mapping: its row range
     and the state of the generator it is handed)"""
-    if st.name != 'mapping':
+    if not st.name.startswith('mapping'):
         return None
 
     def observe(index, kwargs):
@@ -96,22 +96,57 @@ def expected_seeds(st, chunks):
     return out
 
 
+def partition_problem(chunks, n_rows):
+    """the row chunks handed out, in dispatch order, must tile [0, n_rows):
+    that - not a particular chunk size - is what the property needs"""
+    pos = 0
+    for r0, r1 in chunks:
+        if r0 != pos or r1 <= r0:
+            return 'chunk [%d, %d) does not continue at row %d' % (r0, r1, pos)
+        pos = r1
+    if pos != n_rows:
+        return 'chunks end at row %d of %d' % (pos, n_rows)
+    return None
+
+
 def check_seeds(ctx, st, n_proc, observed, detail):
-    """mapping: every worker was seeded by dispatch index, whatever the
-    schedule"""
+    """mapping: the chunks dispatched tile the rows, and every worker was
+    seeded by dispatch index (chunk k <- k-th draw of the parent generator),
+    whatever the schedule and whatever the chunk size"""
     n_rows = len(st.prob.query_ids)
-    eff = min(max(1, -(-n_rows // n_proc)), st.chunk_size)
-    chunks = [[r0, min(n_rows, r0 + eff)] for r0 in range(0, n_rows, eff)]
-    want = expected_seeds(st, chunks)
+    chunks = [[o[0], o[1]] for o in observed]
+    st.last_chunks = chunks
     ctx.count('seed-lists-checked')
+    bad = partition_problem(chunks, n_rows)
+    if bad:
+        d = dict(detail)
+        d.update(kind='seeds', observed=observed)
+        ctx.violation('C04/nproc/chunks-not-a-partition',
+                      'mapping: the row chunks dispatched do not tile the '
+                      '%d query rows: %s' % (n_rows, bad), d)
+        return False
+    want = expected_seeds(st, chunks)
     if observed != want:
         d = dict(detail)
         d.update(kind='seeds', observed=observed, expected=want)
         ctx.violation('C04/seed/not-kth-draw',
                       'mapping: the generators handed to the workers are not '
-                      'default_rng(k-th draw of the parent generator) for '
-                      'the documented chunks', d)
+                      'default_rng(k-th draw of the parent generator) in '
+                      'dispatch order', d)
         return False
+    if ctx.driver_ok and chunks:
+        # the model's chunk iterator with the OBSERVED step
+        step = chunks[0][1] - chunks[0][0]
+        m = ctx.model('procs.chunksOf', {'nRows': n_rows, 'step': step})
+        if m != chunks:
+            ctx.disagreements_checked += 1
+            d = dict(detail)
+            d.update(kind='seeds', observed=observed, model=m,
+                     broken='correspondence CTM.Procs.chunks ~ the row '
+                            'iterator of run_type_assignment_on_h5ad_cpu')
+            ctx.violation('C04/correspondence/chunks',
+                          'the dispatched chunks are not range(0, n, step) '
+                          'for the observed step', d, found_input=False)
     return True
 
 
@@ -120,7 +155,7 @@ def run_plain(st, n_proc, ctx=None, detail=None):
         st, n_proc, faults.count_workers(st, observe_for(st)))
     if err is not None or timed_out:
         raise core.InfraError('stage %s does not run: %s' % (st.name, err))
-    if ctx is not None and st.name == 'mapping':
+    if ctx is not None and st.name.startswith('mapping'):
         check_seeds(ctx, st, n_proc, rec.observed, detail or {})
     return rec.started
 
@@ -184,57 +219,36 @@ def read_trace(prefix):
 
 
 def check_nproc(ctx, st, prob_seed, n_leaves, base_np, base):
-    """mapping: worker counts with the same effective chunk size"""
+    """mapping: two worker counts that induce the same chunks (as observed
+    at dispatch) give identical outputs"""
     n_rows = len(st.prob.query_ids)
-    eff = {}
+    c14suite.clear(st)
+    run_plain(st, base_np, ctx, {'kind': 'nproc', 'prob_seed': prob_seed,
+                                 'n_leaves': n_leaves,
+                                 'n_processors': [base_np, base_np]})
+    base_chunks = list(st.last_chunks)
     for p in (1, 2, 3, 4):
-        eff[p] = min(max(1, -(-n_rows // p)), st.chunk_size)
-    same = [p for p in (2, 3, 4) if eff[p] == eff[base_np] and p != base_np]
-    for p in same:
+        if p == base_np:
+            continue
         detail = {'kind': 'nproc', 'prob_seed': prob_seed,
                   'n_leaves': n_leaves, 'n_processors': [base_np, p],
                   'n_rows': n_rows, 'chunk_size': st.chunk_size}
         c14suite.clear(st)
-        trace = st.d / 'trace_np'
-        os.environ['CELL_TYPE_MAPPER_VERIF_TRACE'] = str(trace)
-        try:
-            run_plain(st, p, ctx, detail)
-        finally:
-            os.environ.pop('CELL_TYPE_MAPPER_VERIF_TRACE', None)
-        ev = read_trace(trace)
-        chunks = sorted([e['r0'], e['r1']] for e in ev
-                        if e['kind'] == 'chunk')
+        run_plain(st, p, ctx, detail)
+        chunks = list(st.last_chunks)
+        if chunks != base_chunks:
+            ctx.count('nproc:different-chunks')
+            continue
         ctx.case(('nproc', prob_seed, base_np, p), sample=detail)
         ctx.count('nproc-pairs')
         got = canon_of(st, 'mapping')
-        # predicate: the chunks are the documented ones ...
-        want = [[r0, min(n_rows, r0 + eff[p])]
-                for r0 in range(0, n_rows, eff[p])]
         detail['chunks'] = chunks
-        if chunks != want:
-            ctx.violation('C04/nproc/chunks-not-documented',
-                          'n_processors=%d: row chunks %r, documented '
-                          'chunking gives %r' % (p, chunks, want), detail)
-            continue
-        # ... and equal chunks give identical output
         if got != base:
             detail['differs_in'] = diff_keys(base, got)[:8]
             ctx.violation('C04/nproc/output-differs',
                           'mapping with n_processors=%d and %d uses the same '
                           'chunks but the outputs differ in %s'
                           % (base_np, p, detail['differs_in']), detail)
-            continue
-        if ctx.driver_ok:
-            m = ctx.model('procs.chunks', {'nRows': n_rows, 'nProc': p,
-                                           'chunkSize': st.chunk_size})
-            if m['chunks'] != chunks:
-                ctx.disagreements_checked += 1
-                detail['model'] = m
-                detail['broken'] = 'correspondence CTM.Procs.chunks/effChunk ' \
-                                   '~ run_type_assignment_on_h5ad_cpu'
-                ctx.violation('C04/correspondence/chunks',
-                              'correspondence procs.chunks no longer checks',
-                              detail, found_input=False)
 
 
 @contextlib.contextmanager
@@ -277,12 +291,15 @@ def traced_run(ctx, st, n_proc, detail):
 
 def check_host(ctx, prob_seed, procs=(17, 24, 40), simulate=True, st=None):
     """"the result depends only on inputs, configuration and seed, not on the
-    host": (i) with a large `chunk_size` the row chunks are the documented
-    ones for the *configured* n_processors, also when it exceeds the number of
-    cores of this machine; (ii) the output equals that of a run with the
-    equivalent explicit chunk_size and 2 processes (same chunks => identical
-    mapping); (iii) a run under a simulated 2-core host equals the
-    unpatched run"""
+    host": with a large `chunk_size` (the worker count decides the chunks) and
+    n_processors above the number of cores of this machine,
+      (i)  the run on this host and the run on a simulated 64-core host give
+           the same chunks and the same output;
+      (ii) the output equals that of a run with 2 processes and the observed
+           chunk size asked for explicitly, when that run dispatches the same
+           chunks (same chunks => identical mapping);
+      (iii) n_processors=4 on a simulated 2-core host equals the unpatched
+           run."""
     if st is None:
         prob = c14suite.make_problem(prob_seed, 5)
         with pipeline.workdir('ctmverif_c04_') as d:
@@ -291,61 +308,61 @@ def check_host(ctx, prob_seed, procs=(17, 24, 40), simulate=True, st=None):
             return check_host(ctx, prob_seed, procs, simulate, st)
     n_rows = len(st.prob.query_ids)
     big = type(st).chunk_size
+
+    def one(n_proc, detail):
+        c14suite.clear(st)
+        run_plain(st, n_proc, ctx, detail)
+        return list(st.last_chunks), canon_of(st, 'mapping')
+
+    def sizes(chunks):
+        return sorted(set(b - a for a, b in chunks))
+
     for p in procs:
         detail = {'kind': 'host', 'prob_seed': prob_seed, 'n_processors': p,
                   'n_rows': n_rows, 'chunk_size': big,
                   'host_cores': os.cpu_count()}
-        eff = min(max(1, -(-n_rows // p)), big)
         st.chunk_size = big
-        chunks, got = traced_run(ctx, st, p, detail)
+        chunks, got = one(p, detail)
         ctx.case(('host', prob_seed, p), sample=detail)
         ctx.count('host:n_processors=%d' % p)
-        want = [[r0, min(n_rows, r0 + eff)] for r0 in range(0, n_rows, eff)]
         detail['chunks'] = chunks
-        if chunks != want:
-            detail['documented_chunks'] = want
-            ctx.violation('C04/nproc/chunks-not-documented',
-                          'n_processors=%d on a %s-core host, %d cells, '
-                          'chunk_size=%d: row chunks have size %r, the '
-                          'documented chunking min(chunk_size, ceil(n_rows/'
-                          'n_processors)) gives %d'
-                          % (p, os.cpu_count(), n_rows, big,
-                             sorted(set(b - a for a, b in chunks)), eff),
+        with simulated_cores(64):
+            chunks64, got64 = one(p, detail)
+        if chunks64 != chunks or got64 != got:
+            detail['chunks_on_64_cores'] = chunks64
+            detail['differs_in'] = diff_keys(got, got64)[:8]
+            ctx.violation('C04/host/output-depends-on-core-count',
+                          'mapping with n_processors=%d, %d cells: on this '
+                          '%s-core host the chunks have sizes %r, on a host '
+                          'that reports 64 cores %r; outputs differ in %s'
+                          % (p, n_rows, os.cpu_count(), sizes(chunks),
+                             sizes(chunks64), detail['differs_in']),
                           dict(detail))
-        elif ctx.driver_ok:
-            m = ctx.model('procs.chunks', {'nRows': n_rows, 'nProc': p,
-                                           'chunkSize': big})
-            if m['chunks'] != chunks:
-                ctx.disagreements_checked += 1
-                detail['model'] = m
-                detail['broken'] = 'correspondence CTM.Procs.chunks/effChunk ' \
-                                   '~ run_type_assignment_on_h5ad_cpu'
-                ctx.violation('C04/correspondence/chunks',
-                              'correspondence procs.chunks no longer checks',
-                              dict(detail), found_input=False)
-        # the documented chunks asked for explicitly, 2 processes
-        st.chunk_size = eff
-        d2 = dict(detail)
-        d2['n_processors'] = 2
-        d2['chunk_size'] = eff
-        chunks2, ref = traced_run(ctx, st, 2, d2)
-        st.chunk_size = big
-        if ref != got:
-            detail['reference'] = {'n_processors': 2, 'chunk_size': eff,
-                                   'chunks': chunks2}
-            detail['differs_in'] = diff_keys(ref, got)[:8]
-            ctx.violation('C04/nproc/output-differs',
-                          'mapping with n_processors=%d, chunk_size=%d and '
-                          'with n_processors=2, chunk_size=%d (the same '
-                          'documented chunks) give outputs that differ in %s'
-                          % (p, big, eff, detail['differs_in']), detail)
+        # the observed chunk size asked for explicitly, 2 processes
+        if chunks:
+            step = chunks[0][1] - chunks[0][0]
+            st.chunk_size = step
+            d2 = dict(detail)
+            d2['n_processors'] = 2
+            d2['chunk_size'] = step
+            chunks2, ref = one(2, d2)
+            st.chunk_size = big
+            if chunks2 == chunks and ref != got:
+                detail['reference'] = {'n_processors': 2, 'chunk_size': step}
+                detail['differs_in'] = diff_keys(ref, got)[:8]
+                ctx.violation('C04/nproc/output-differs',
+                              'mapping with n_processors=%d, chunk_size=%d '
+                              'and with n_processors=2, chunk_size=%d '
+                              'dispatches the same chunks but the outputs '
+                              'differ in %s'
+                              % (p, big, step, detail['differs_in']), detail)
     if simulate:
         detail = {'kind': 'host', 'prob_seed': prob_seed, 'n_processors': 4,
                   'n_rows': n_rows, 'chunk_size': big, 'simulated_cores': 2}
         st.chunk_size = big
-        chunks, plain = traced_run(ctx, st, 4, detail)
+        chunks, plain = one(4, detail)
         with simulated_cores(2):
-            chunks_s, sim = traced_run(ctx, st, 4, detail)
+            chunks_s, sim = one(4, detail)
         ctx.case(('host-sim', prob_seed), sample=detail)
         ctx.count('host:simulated-2-cores')
         if chunks_s != chunks or sim != plain:
@@ -356,8 +373,7 @@ def check_host(ctx, prob_seed, procs=(17, 24, 40), simulate=True, st=None):
                           'mapping with n_processors=4: on a host that '
                           'reports 2 cores the chunks are %r sized instead '
                           'of %r and the output differs in %s'
-                          % (sorted(set(b - a for a, b in chunks_s)),
-                             sorted(set(b - a for a, b in chunks)),
+                          % (sizes(chunks_s), sizes(chunks),
                              detail['differs_in']), detail)
 
 
